@@ -159,8 +159,9 @@ def main(argv):
         path = core.write_replay(pid, payload)
         lines.append(f'VIOLATION property={pid} replay={path}')
         nviol = len(violations)
-    elif not proofs_ok or coq_err:
-        what = 'proof obligations' if not proofs_ok else 'correspondence evaluation'
+    elif not proofs_ok or coq_err or notes.get('to_coq_errors') or notes.get('oracle_errors'):
+        what = ('proof obligations' if not proofs_ok else 'correspondence evaluation' if coq_err
+                else 'harness (to_coq / oracle raised): ' + str((notes.get('to_coq_errors') or notes.get('oracle_errors'))[:3]))
         payload = dict(property=pid, broken=what,
                        theorem_file=f'coq/properties/{pid}.v', forbidden=hits,
                        log=notes.get('proof_log') or notes.get('coq_eval_error'), seed=seed, tier=tier)
